@@ -16,6 +16,7 @@ import (
 	"os"
 	"strings"
 	"sync"
+	"sync/atomic"
 	"time"
 
 	f_note "github.com/transparency-dev/formats/note"
@@ -37,6 +38,9 @@ type Resp struct {
 	Err     bool   // transport error
 	Repeat  int    // body = Body repeated this many times (oversized answers)
 	Loc     string // Location header (redirects)
+	// PartialStatus > 0: requests for PARTIAL tiles (path contains ".p/") get this status and no body, while
+	// full tiles get Body (a server that dropped its partial tiles and serves damaged full ones)
+	PartialStatus int
 }
 
 // Case is one hostile-response scenario.
@@ -60,11 +64,19 @@ type Case struct {
 	Seed     uint64
 }
 
-type server struct{ c *Case }
+type server struct {
+	c      *Case
+	firsts *atomic.Int64 // requests answered with the First answer (checkpoint / log-info fetches = cycles started)
+}
 
 func (s server) RoundTrip(q *http.Request) (*http.Response, error) {
 	p := q.URL.Path
 	r := s.c.Other
+	defer func() {
+		if s.firsts != nil && r.Status == s.c.First.Status && r.StallMS == s.c.First.StallMS && bytes.Equal(r.Body, s.c.First.Body) && r.Loc == s.c.First.Loc {
+			s.firsts.Add(1)
+		}
+	}()
 	switch s.c.Kind {
 	case "sumdb":
 		if strings.HasSuffix(p, "/latest") {
@@ -86,6 +98,9 @@ func (s server) RoundTrip(q *http.Request) (*http.Response, error) {
 		if strings.HasSuffix(p, "/checkpoint") {
 			r = s.c.First
 		}
+	}
+	if r.PartialStatus > 0 && strings.Contains(p, ".p/") {
+		return &http.Response{StatusCode: r.PartialStatus, Status: fmt.Sprintf("%d x", r.PartialStatus), Header: http.Header{}, Body: io.NopCloser(bytes.NewReader(nil)), Request: q}, nil
 	}
 	if r.StallMS > 0 {
 		select {
@@ -166,7 +181,8 @@ func runCase(c *Case) string {
 	d := time.Duration(c.DeadlineMS) * time.Millisecond
 	ctx, cancel := context.WithTimeout(context.Background(), d)
 	defer cancel()
-	client := &http.Client{Transport: server{c}, Timeout: d}
+	var firsts atomic.Int64
+	client := &http.Client{Transport: server{c, &firsts}, Timeout: d}
 	if c.Kind == "distributor" {
 		dist, err := rest.NewDistributor(c.URL, client, []config.Log{cl}, v1.Verifier(), bw)
 		if err != nil {
@@ -183,7 +199,7 @@ func runCase(c *Case) string {
 		// the polling loop the service runs: it may only end when its context ends (omniwitness.Main treats
 		// its return as fatal for the whole process)
 		err = f.FeedFunc()(ctx, cl, bw, client, time.Duration(c.PollMS)*time.Millisecond)
-		return fmt.Sprintf("returned early=%v err=%v", ctx.Err() == nil, err)
+		return fmt.Sprintf("returned early=%v cycles=%d err=%v", ctx.Err() == nil, firsts.Load(), err)
 	}
 	err = f.FeedFunc()(ctx, cl, bw, client, 0)
 	return fmt.Sprintf("returned err=%v", err)
